@@ -18,7 +18,7 @@ ASSUMPTIONS = [
     "implemented content rules are recognised behaviourally: validating a node governed by the rule must not report "
     "UNKNOWN_CONTENT_RULE / UnknownContentRuleError",
 ]
-REQUIRED = ["rule_queries_exercised", "late_registration_probes", "minimal_trees_accepted_after_queries", "minimal_trees_accepted_after_history", "minimal_trees_accepted_after_repair", "elements_resolved", "rules_parsed", "child_names_checked", "minimal_trees_accepted", "content_rules_exercised"]
+REQUIRED = ["loader_copies_edited", "child_name_variants_checked", "rule_queries_exercised", "late_registration_probes", "minimal_trees_accepted_after_queries", "minimal_trees_accepted_after_history", "minimal_trees_accepted_after_repair", "elements_resolved", "rules_parsed", "child_names_checked", "minimal_trees_accepted", "content_rules_exercised"]
 EXHAUSTIVE = {"quick": True, "thorough": True}
 
 
@@ -263,6 +263,41 @@ def query_phase(ctx, gen, elements):
                 ctx.violation(f"query-raises:{type(ex).__name__}@{emlkit.raise_site(ex)}", f"a public query of the rule of <{e}> raised {ex!r}",
                               {"element": e, "kind": "queries"})
                 break
+    # what the public loader hands out is the caller's own copy: an application that adds its own children, empties a rule or deletes
+    # one in that copy has not touched the table the library validates with
+    try:
+        mine = mrule.load_rules()
+        for k in list(mine)[:3]:
+            if isinstance(mine[k], list) and len(mine[k]) > 1 and isinstance(mine[k][1], list):
+                mine[k][1].append(["verifApplicationChild", 0, 1])
+            if isinstance(mine[k], list) and mine[k] and isinstance(mine[k][0], dict):
+                mine[k][0]["verifApplicationAttribute"] = [True]
+        if mine:
+            del mine[list(mine)[-1]]
+        mine["verifApplicationRule"] = [{}, [], {"content_rules": ["emptyContent"]}]
+        ctx.count("loader_copies_edited")
+    except Exception as ex:
+        ctx.violation(f"query-raises:{type(ex).__name__}@{emlkit.raise_site(ex)}", f"rule.load_rules() raised {ex!r}", {"kind": "queries"})
+    # every declared child name in the spellings that are NOT that name: only the name itself is allowed
+    for e in elements:
+        try:
+            r = mrule.get_rule(e)
+            declared = emlkit.spec_of(mrule.get_rule_name(e)).names[:5]
+        except Exception:
+            continue
+        known = set(elements)
+        for nm in declared:
+            for variant in ("{https://eml.ecoinformatics.org/eml-2.2.0}" + nm, "eml:" + nm, nm + " ", nm.upper(), nm + "s"):
+                if variant in declared or variant in known:
+                    continue
+                ctx.count("child_name_variants_checked")
+                try:
+                    if r.is_allowed_child(variant):
+                        ctx.violation("unknown-child-spelling-allowed", f"the rule of <{e}> allows a child called {variant!r}, which is not a known "
+                                                                        f"element (whole-tree validation can never accept it)", {"element": e, "kind": "queries"})
+                        break
+                except Exception:
+                    pass
     ctx.evaluated()
     check_table_text(ctx)
     for name, data in emlkit.rules_table().items():
